@@ -19,6 +19,9 @@ CaUsable(p) == ("client_ca" \notin DOMAIN p) \/ p.client_ca = "proper"
 \* p.origin (optional field): an origin override ("good_before", "good_after", "bad_before", "bad_after": a host that matches / does not
 \* match the certificate, set before / after the TLS configuration).  It names the :authority of requests; the name the certificate
 \* is checked against stays the configured domain or the URI host, so `origin` occurs in none of the predicates below.
+\* p.roots_form / p.client_ca_form (optional fields): the trusted certificate is given alone ("single") or as the first / last of
+\* several certificates in one PEM ("bundle_first", "bundle_last"); every certificate of a bundle is a trust anchor, so the form
+\* occurs in none of the predicates.
 ClientAccepted(p) == \/ p.client_auth = "none"
                      \/ (CaUsable(p) /\ p.client_auth = "required" /\ p.identity = "valid")
                      \/ (CaUsable(p) /\ p.client_auth = "optional" /\ p.identity \in {"none", "valid"})
